@@ -5,10 +5,12 @@
 use std::path::PathBuf;
 
 fn main() {
-    let src_path = "/repo/wasm/src/lib.rs";
+    println!("cargo:rerun-if-env-changed=VERIF_REPO");
+    let repo = std::env::var("VERIF_REPO").unwrap_or_else(|_| "/repo".into());
+    let src_path = &format!("{repo}/wasm/src/lib.rs");
     println!("cargo:rerun-if-changed={src_path}");
     println!("cargo:rerun-if-changed=build.rs");
-    let src = std::fs::read_to_string(src_path).expect("read /repo/wasm/src/lib.rs");
+    let src = std::fs::read_to_string(src_path).expect("read <repo>/wasm/src/lib.rs");
     let mut out = String::new();
     let mut stripped = 0;
     let mut in_report_html = false;
